@@ -188,6 +188,17 @@ def run(tier):
                 tags.append(("overview", eng))
         scripts.append({"id": f"all-commands{vi}", "ops": ops, "tags": tags, "cfg": {"rules": "every engine command, alone and nested", "values": [pv, rv, vv]}, "nhead": nhead,
                         "isolate_on_panic": True})
+    # author ids with the characters that must be escaped in an attribute: a bookmark names the id, in well-formed markup
+    ops = [{"op": "set_rules_dir", "dir": "$RULES"}, {"op": "set_pref", "name": "Bookmark", "value": "true"}]
+    tags = [None, None]
+    for e in ["<math><mi id=\"a'b\">x</mi><mo>+</mo><mi id='c&amp;d'>y</mi><mo>+</mo><mi id='p&quot;q'>z</mi></math>",
+              "<math><mfrac id='n&gt;1'><mi id='e&lt;f'>a</mi><mn id=\"it's\">2</mn></mfrac></math>"]:
+        ops.append({"op": "set_mathml", "mathml": e})
+        tags.append(("set", e))
+        for eng in ("None", "SSML", "SAPI5"):
+            ops += [{"op": "set_pref", "name": "TTS", "value": eng}, {"op": "speech"}, {"op": "overview"}]
+            tags += [None, ("speech", eng), ("overview", eng)]
+    scripts.append({"id": "ids-to-escape", "ops": ops, "tags": tags, "cfg": {"ids": "author ids with ' & < > \""}, "isolate_on_panic": True})
     results = C.run_mcv([{"id": s["id"], "ops": s["ops"], "isolate_on_panic": True} for s in scripts], wd, timeout_ms=60000)
     events, back = [], []
     skipped = 0
@@ -215,7 +226,8 @@ def run(tier):
                 continue
             if getter not in plain:
                 continue
-            marks = re.findall(r"<mark name=['\"]([^'\"]*)['\"]", rr["v"]) + re.findall(r"<bookmark mark=['\"]([^'\"]*)['\"]", rr["v"])
+            import html
+            marks = [html.unescape(a_ or b_) for a_, b_ in re.findall(r"<(?:mark name|bookmark mark)=(?:'([^']*)'|\"([^\"]*)\")", rr["v"])]
             if re.search(r"=\s*=", "".join(m.group(0) for m in TAG.finditer(rr["v"]))) or re.search(r"<[^>]*==[^>]*>", rr["v"]):
                 bad = 1
             if bad == 1 and re.search(r"&lt;|&gt;|&#x3[CcEe];|&#6[02];", cur_expr) and TAG.sub("", rr["v"]).count("<") + TAG.sub("", rr["v"]).count(">") > 0 \
